@@ -249,7 +249,8 @@ fn run_c14(t: &mut Tape, _tier: Tier) -> RunOut {
     mix.logical_p10 = 2;
     mix.outside_window = true;
     mix.noise = 1;
-    mix.req.big_body_one_in = 0;
+    // (now and then a large upload: whatever the library does with it, the validation completes)
+    mix.req.big_body_one_in = 150;
     mix.req.max_pairs = 2;
     mix.req.max_segs = 2;
     mix.req.max_headers = 2;
